@@ -464,6 +464,16 @@ func (e *Enc) evalType(s string, pkg *types.Package) (types.Type, error) {
 	if pkg == nil {
 		pkg = dummyPkg
 	}
+	// allow fully qualified "*path/to/pkg.Type" / "[]*path/to/pkg.Type"
+	if strings.Contains(s, "/") && (strings.HasPrefix(s, "*") || strings.HasPrefix(s, "[]")) && !strings.Contains(s, "map[") {
+		if strings.HasPrefix(s, "*") {
+			if t, err := e.evalType(s[1:], pkg); err == nil {
+				return types.NewPointer(t), nil
+			}
+		} else if t, err := e.evalType(s[2:], pkg); err == nil {
+			return types.NewSlice(t), nil
+		}
+	}
 	// allow fully qualified "path/to/pkg.Type"
 	if i := strings.LastIndex(s, "/"); i >= 0 && !strings.HasPrefix(s, "[]") && !strings.HasPrefix(s, "*") && !strings.HasPrefix(s, "map[") {
 		j := strings.LastIndex(s, ".")
@@ -500,8 +510,9 @@ func (e *Enc) evalType(s string, pkg *types.Package) (types.Type, error) {
 				}
 			}
 			if i := strings.Index(rest, "."); i > 0 {
+				aliased := e.P.tpkgs[e.P.reg.PkgAlias[rest[:i]]]
 				for _, p := range e.P.tpkgs {
-					if p.Name() == rest[:i] {
+					if (aliased == nil && p.Name() == rest[:i]) || (aliased != nil && p == aliased) {
 						if o := p.Scope().Lookup(rest[i+1:]); o != nil {
 							t := o.Type()
 							for k := len(pre); k > 0; {
@@ -645,9 +656,16 @@ func (e *Enc) havocAll(st *bstate, why string) {
 	if e.curWrite != nil {
 		e.curWrite["*"] = true
 	}
+	keep := map[string]bool{}
+	if (why == "select" || why == "recv") && e.C != nil && len(e.C.Unshared) > 0 {
+		for _, m := range e.frameComps(&Contract{Modifies: e.C.Unshared, HasMod: true}, e.fn) {
+			keep[m] = true
+		}
+		e.note("unshared (assumed): " + strings.Join(e.C.Unshared, ", ") + " not written by other goroutines at synchronisation points")
+	}
 	for _, n := range append([]string(nil), e.W.compOrder...) {
 		c := e.W.comps[n]
-		if c.Kind == "global-ext" {
+		if c.Kind == "global-ext" || keep[n] {
 			continue // package-level variables of dependencies (sentinel errors etc.) are treated as constants
 		}
 		if c.Kind == "alloc" {
